@@ -182,3 +182,9 @@ func (conR *ConsensusReactor) VerifStartReactorOnly() error {
 	conR.fastSync = false
 	return err
 }
+
+// VerifSignAddVote signs a vote with the node's own signer and queues it (for
+// overridden prevote behaviours of deliberately faulty nodes in live networks).
+func (cs *ConsensusState) VerifSignAddVote(type_ byte, hash []byte, header types.PartSetHeader) *types.Vote {
+	return cs.signAddVote(type_, hash, header)
+}
